@@ -25,8 +25,28 @@ namespace nmtools::index
         auto ret = return_t {};
         if constexpr (!meta::is_constant_index_array_v<return_t>) {
             // TODO: use index_type instead of size_t
-            size_t d = ceil_(float(stop - start) / step);
-            at(ret,0) = d;
+            if constexpr (meta::is_index_v<start_t> && meta::is_index_v<stop_t> && (meta::is_index_v<step_t> || is_none_v<step_t>)) {
+                // integer bounds: exact integer arithmetic (a float quotient rounds lengths above 2^24), an empty range has length 0
+                using signed_t = meta::make_signed_t<nm_size_t>;
+                auto range = static_cast<signed_t>(stop) - static_cast<signed_t>(start);
+                auto s     = [&](){
+                    if constexpr (is_none_v<step_t>) {
+                        return signed_t{1};
+                    } else {
+                        return static_cast<signed_t>(step);
+                    }
+                }();
+                size_t d = 0;
+                if (s > 0 && range > 0) {
+                    d = static_cast<size_t>((range + s - 1) / s);
+                } else if (s < 0 && range < 0) {
+                    d = static_cast<size_t>((-range + (-s) - 1) / (-s));
+                }
+                at(ret,0) = d;
+            } else {
+                size_t d = ceil_(float(stop - start) / step);
+                at(ret,0) = d;
+            }
         }
         return ret;
     } // arange_shape
